@@ -23,7 +23,7 @@ ENTRIES = ["take_step", "advance", "run_for", "get_parameter", "get_probabilitie
            "get_interval", "get_marginal", "mode", "save", "matrix_plot", "trace_plot", "plot_diagnostics"]
 FLOORS = {"key-agreement": 6, "reload-defined": 40, "save-defined": 5, "restored-value-flow": 4,
           "state-persisted": 7, "key-pairing": 4,
-          "stack-roundtrip": 2, "derived-consistent": 5, "slot-reselected": 1, "reloaded-limit-hook": 3, "ctor-arg-roundtrip": 1, "rebuilt-object-roundtrip": 3, "adaptation-test-survives-reload": 2, "saved-key-restored": 7}
+          "stack-roundtrip": 2, "derived-consistent": 5, "slot-reselected": 1, "reloaded-limit-hook": 3, "ctor-arg-roundtrip": 1, "rebuilt-object-roundtrip": 3, "load-forwards-arguments": 4, "adaptation-test-survives-reload": 2, "saved-key-restored": 7}
 
 
 def load_context(prog, ci):
@@ -543,6 +543,34 @@ def _rebuilt_object_roundtrip(prog, ci, cname, lfn, var, values, rel):
     return out
 
 
+def _load_forwards(prog, ci, cname, lfn, rel):
+    """What the caller hands to load (the density, its gradient) reaches the reloaded sampler under its own name: as keyword
+    `posterior=posterior`, or stored as `<chain>.posterior = posterior` - never into the slot / attribute of another argument."""
+    params = [a.arg for a in lfn.args.args[2:]] + [a.arg for a in lfn.args.kwonlyargs]
+    why = []
+    n_uses = 0
+    for n in ast.walk(lfn):
+        if isinstance(n, ast.Call):
+            for k in n.keywords:
+                if isinstance(k.value, ast.Name) and k.value.id in params and k.arg is not None:
+                    n_uses += 1
+                    if k.arg != k.value.id and k.arg in params:
+                        why.append(f"line {n.lineno}: `{k.arg}={k.value.id}` hands load's `{k.value.id}` to the parameter `{k.arg}`")
+        elif isinstance(n, ast.Assign) and isinstance(n.value, ast.Name) and n.value.id in params:
+            for t in n.targets:
+                if isinstance(t, ast.Attribute):
+                    n_uses += 1
+                    if t.attr != n.value.id and t.attr in params:
+                        why.append(f"line {n.lineno}: `{U(t)} = {n.value.id}` stores load's `{n.value.id}` as `{t.attr}`")
+    # every such argument is used at all
+    used = {x.id for x in ast.walk(lfn) if isinstance(x, ast.Name) and isinstance(x.ctx, ast.Load)}
+    for p_ in params:
+        if p_ not in used:
+            why.append(f"load's argument `{p_}` is never used: the reloaded sampler cannot evaluate it")
+    return struct_ob("load-forwards-arguments", f"{ci.module.name}.{cname}.load", not why, "; ".join(why[:3]), rel, lfn.lineno,
+                     slots={"arguments": params, "uses": n_uses}, tier="E")
+
+
 def _slot_reselected(prog, pc, ld, var, rel):
     """A bound-method slot (`self.proposal = self.<one of several>`) is chosen by selector methods from flag attributes.  load
     builds a fresh object and overwrites the flags from the file: the selector must run after the last flag it reads has been
@@ -876,6 +904,7 @@ def run(prog, tier):
         obs.append(_derived_consistent(prog, ci, cname, lfn, lc, call, var, rel))
         obs.extend(_ctor_arg_roundtrip(prog, ci, cname, lfn, call, values, rel))
         obs.extend(_rebuilt_object_roundtrip(prog, ci, cname, lfn, var, values, rel))
+        obs.append(_load_forwards(prog, ci, cname, lfn, rel))
 
     meta = {
         "explanation": "Attribute typestate: the constructor chain of each sampler is interpreted abstractly over "
